@@ -218,6 +218,44 @@ def shadow_case(rnd, how):
     return t, main, flat
 
 
+def link_case(rnd, how):
+    """A relative include operand with '..' in a file that is reached through a symbolic link to its directory: the path is
+    the operating system's to resolve ('..' of a linked directory is the parent of the directory the link points to), not the
+    text's.  The specification sees the tree as the operating system shows it (t.view: path as joined -> file that is there)."""
+    t = Tree(rnd)
+    t.places = ["dotdot-" + how]
+    main = VR + "/proj/main.asm"
+    snip = [instr("inc", R(21)), data(1, E(0x41), E(0x42))]
+    decoy = [instr("dec", R(22)), data(1, E(0x99))]
+    pre, post = [instr("ldi", R(16), E(7))], [instr("ret")]
+    t.links, t.view = [], {}
+    if how in ("linked", "linked-no-decoy", "linked-ipath"):
+        phys = VR + "/vendor/pkg/drivers/uart.inc"
+        t.files[VR + "/vendor/pkg/common.inc"] = snip
+        if how == "linked":
+            t.files[VR + "/proj/common.inc"] = decoy            # what a textual reading of proj/drivers/.. finds
+        # (with the .includepath form the plain name would also be looked for in the directories of the files read so far,
+        #  proj among them, and the statement gives no priority: no decoy there)
+        t.links.append(("proj/drivers", "../vendor/pkg/drivers"))
+        if how == "linked-ipath":
+            t.files[phys] = pre + [line("includepath", p="..", abs=False), line("include", p="common.inc", abs=False)] + post
+            t.view[VR + "/proj/drivers/../common.inc"] = VR + "/vendor/pkg/common.inc"
+        else:
+            t.files[phys] = pre + [line("include", p="../common.inc", abs=False)] + post
+            t.view[VR + "/proj/drivers/../common.inc"] = VR + "/vendor/pkg/common.inc"
+        t.view[VR + "/proj/drivers/uart.inc"] = phys
+        t.files[main] = [instr("nop"), line("include", p="drivers/uart.inc", abs=False), instr("sei")]
+    else:
+        # no link: the same operand in a plain subdirectory
+        t.files[VR + "/proj/sub/uart.inc"] = pre + [line("include", p="../common.inc", abs=False)] + post
+        t.files[VR + "/proj/common.inc"] = snip
+        t.files[VR + "/vendor/pkg/common.inc"] = decoy
+        t.view[VR + "/proj/sub/../common.inc"] = VR + "/proj/common.inc"
+        t.files[main] = [instr("nop"), line("include", p="sub/uart.inc", abs=False), instr("sei")]
+    flat = [instr("nop")] + copy.deepcopy(pre) + copy.deepcopy(snip) + copy.deepcopy(post) + [instr("sei")]
+    return t, main, flat
+
+
 def render_tree(t, root):
     """Renders every file (assigning line numbers) with the virtual root replaced by the real one."""
     texts = {}
@@ -272,6 +310,9 @@ def check(prop, tier, seed):
         for how in ("caller", "beside", "file-as-dir"):
             t, main, flat = shadow_case(rnd, how)
             cases.append((t, main, flat, False))
+        for how in ("linked", "linked-no-decoy", "linked-ipath", "plain"):
+            t, main, flat = link_case(rnd, how)
+            cases.append((t, main, flat, False))
         for boundary in (8192, 16384, 4096, 65536):
             for shift in (0, 1, 2):
                 t, main, flat = straddle_case(rnd, boundary, shift)
@@ -283,7 +324,7 @@ def check(prop, tier, seed):
             flatp = copy.deepcopy(flat)
             flatsrc = render(flatp)
             jobs.append({"k": "file", "id": 2 * i, "root": root, "files": texts, "dirs": ["work/cw", "ext", "proj"], "cwd": "work",
-                         "main": root + "/proj/main.asm", "paths": [root + "/ext"]})
+                         "main": root + "/proj/main.asm", "paths": [root + "/ext"], "links": [list(x) for x in getattr(t, "links", [])]})
             jobs.append({"k": "str", "id": 2 * i + 1, "src": flatsrc})
             metas.append((texts, flatp, flatsrc))
         res = run_jobs(jobs, workers=1)          # chdir is process-wide: one worker process, sequential
@@ -297,6 +338,8 @@ def check(prop, tier, seed):
             miss = [nm for nm in names if nm.startswith("nothere")] or [nm for nm in names if nm == "c33.inc"]
             named = r["r"] == "err" and any(nm in r.get("text", "") for nm in miss)
             fs = {p: {"dir": os.path.dirname(p), "lines": clean(ls)} for p, ls in t.files.items()}
+            for alias, phys in getattr(t, "view", {}).items():      # the tree as the operating system shows it through links and '..'
+                fs[alias] = {"dir": os.path.dirname(alias), "lines": clean(t.files[phys])}
             events.append({"fs": fs, "cwd": VR + "/work", "main": main, "paths": [VR + "/ext"], "devs": devs_for(flat, devices),
                            "flat": clean(flatp), "hasflat": not missing, "res": digest(r, True, msg_texts),
                            "resflat": digest(res[2 * i + 1], True, msg_texts), "named": named})
